@@ -401,6 +401,10 @@ def inline_temps(fn, candidates):
         if not (isinstance(st, ast.Assign) and len(st.targets) == 1 and st.targets[0] is stores[0]):
             continue
         rhs = st.value
+        # a fresh mutable object (a list/dict/set display or comprehension) has an identity: every read of the name is the
+        # *same* object, which a copy of the display at each read would not be.  Only a single read may take it over.
+        if isinstance(rhs, (ast.List, ast.Dict, ast.Set, ast.ListComp, ast.DictComp, ast.SetComp)) and len(loads) != 1:
+            continue
         # all reads in later statements of the same block
         later = block[idx + 1:]
         inside = [x for s in later for x in ast.walk(s) if isinstance(x, ast.Name) and x.id == name and isinstance(x.ctx, ast.Load)]
